@@ -2732,6 +2732,19 @@ impl DhtNetworkManager {
     }
 }
 
+#[cfg(feature = "verif-hooks")]
+impl DhtNetworkManager {
+    /// verif: number of entries in the pending DHT request table.
+    pub fn verif_active_operations_len(&self) -> usize {
+        self.active_operations.lock().map(|ops| ops.len()).unwrap_or(0)
+    }
+
+    /// verif: the core engine behind this manager.
+    pub fn verif_core(&self) -> Arc<RwLock<DhtCoreEngine>> {
+        Arc::clone(&self.dht)
+    }
+}
+
 impl Default for DhtNetworkConfig {
     fn default() -> Self {
         Self {
